@@ -27,6 +27,25 @@ const nPool = 5 // importable keys derived from the seed
 var passphrases = []string{
 	"", " ", "a", "A", "correct horse battery staple", "pässwörd✓", "パスワード", "p\x00q", "p",
 	strings.Repeat("x", 72), strings.Repeat("x", 72) + "A", strings.Repeat("x", 72) + "B", "trailing ", "trailing",
+	// pairs that are one key to an HMAC: zero padding up to the block size, hashing beyond it
+	"p\x00", "\x00", strings.Repeat("y", 100), sha256String(strings.Repeat("y", 100)),
+}
+
+func sha256String(s string) string { h := sha256.Sum256([]byte(s)); return string(h[:]) }
+
+// hmacEquivalent: two different passphrases that HMAC-SHA256 (the core of the key derivation)
+// turns into the same key: keys longer than the 64-byte block are hashed first, shorter ones are
+// padded with zero bytes.
+func hmacEquivalent(a, b string) bool {
+	norm := func(x string) string {
+		k := []byte(x)
+		if len(k) > 64 {
+			h := sha256.Sum256(k)
+			k = h[:]
+		}
+		return string(bytes.TrimRight(k, "\x00"))
+	}
+	return a != b && norm(a) == norm(b)
 }
 
 type Config struct {
@@ -170,8 +189,8 @@ func (s *sim) knownSlots() []int {
 }
 
 func (s *sim) gen(r *core.Rand) *Step {
-	ops := []string{"create", "import_obj", "import_armor", "export_armor", "export_obj", "sign", "update", "delete", "unsafe_delete", "list", "get", "reopen", "flip", "armor_flip", "decrypt_armor"}
-	w := []int{6, 14, 8, 10, 14, 10, 8, 6, 2, 6, 6, 6, 3, 3, 8}
+	ops := []string{"create", "import_obj", "import_armor", "export_armor", "export_obj", "sign", "update", "delete", "unsafe_delete", "list", "get", "reopen", "flip", "armor_flip", "decrypt_armor", "coinbase", "set_coinbase"}
+	w := []int{6, 14, 8, 10, 14, 10, 8, 6, 2, 6, 6, 6, 3, 3, 8, 7, 2}
 	st := &Step{Op: ops[r.Weighted(w)]}
 	slots := s.knownSlots()
 	st.Slot = slots[r.Intn(len(slots))]
@@ -211,7 +230,7 @@ func (s *sim) gen(r *core.Rand) *Step {
 
 // nearMiss picks another passphrase, biased to ones that differ little from the right one.
 func (s *sim) nearMiss(r *core.Rand, right int) int {
-	near := map[int][]int{0: {1}, 1: {0}, 2: {3}, 3: {2}, 7: {8}, 8: {7}, 9: {10, 11}, 10: {9, 11}, 11: {9, 10}, 12: {13}, 13: {12}}
+	near := map[int][]int{0: {1, 15}, 1: {0}, 2: {3}, 3: {2}, 7: {8}, 8: {7, 14}, 9: {10, 11}, 10: {9, 11}, 11: {9, 10}, 12: {13}, 13: {12}, 14: {8}, 15: {0}, 16: {17}, 17: {16}}
 	if c, ok := near[right]; ok && r.Chance(0.6) {
 		return c[r.Intn(len(c))]
 	}
@@ -263,6 +282,10 @@ func (s *sim) judgeKey(op string, slot int, e *entry, pass int, priv pcrypto.Pri
 		s.violate("wrong-key-returned", op, fmt.Sprintf("%s for slot %d returned private key bytes that differ from the stored key", op, slot))
 		return
 	}
+	if pass != e.pass && hmacEquivalent(passphrases[pass], passphrases[e.pass]) {
+		s.violate("key-returned-for-hmac-equivalent-passphrase", "stored-key", fmt.Sprintf("slot %d is protected with %q and was handed out for %q", slot, passphrases[e.pass], passphrases[pass]))
+		return
+	}
 	if pass != e.pass {
 		s.violate("key-returned-for-wrong-passphrase", op, fmt.Sprintf("%s for slot %d succeeded with passphrase %q, the key is protected with %q", op, slot, passphrases[pass], passphrases[e.pass]))
 		return
@@ -286,7 +309,57 @@ func (s *sim) exec(st *Step) string {
 	caseKey := func(out string) {
 		s.res.Case(fmt.Sprintf("%s/%s/pass=%v/%s", st.Op, s.state(e), !wrong, out))
 	}
+	// A supplied passphrase that differs from the right one only by what HMAC ignores is not run
+	// through the generated operation (its outcome would move the keybase and the model apart):
+	// a read-only probe decides whether the keybase takes it for the right one.
+	if e.present && !e.damaged && st.Pass != e.pass && hmacEquivalent(pass, passphrases[e.pass]) && st.Op != "decrypt_armor" && st.Op != "import_armor" && st.Op != "coinbase" && st.Op != "set_coinbase" && st.Op != "list" && st.Op != "get" && st.Op != "reopen" && st.Op != "flip" && st.Op != "armor_flip" && st.Op != "create" && st.Op != "import_obj" && st.Op != "unsafe_delete" {
+		s.res.Probe("hmac_equivalent_passphrase_supplied")
+		if priv, err := kb.ExportPrivateKeyObject(addr, pass); err == nil {
+			raw := priv.PublicKey().RawBytes()
+			if e.pub != nil && !bytes.Equal(raw, e.pub) {
+				s.violate("wrong-key-returned", "export_obj", fmt.Sprintf("slot %d: another key came back for an equivalent passphrase", st.Slot))
+			}
+			s.violate("key-returned-for-hmac-equivalent-passphrase", "stored-key", fmt.Sprintf("slot %d is protected with %q and was handed out for %q: the two differ only by trailing zero bytes or by pre-hashing, which the HMAC inside the key derivation does not distinguish", st.Slot, passphrases[e.pass], pass))
+		}
+		return "probed-equivalent"
+	}
 	switch st.Op {
+	case "coinbase":
+		kp, err := kb.GetCoinbase()
+		if err != nil {
+			return "none"
+		}
+		slot := -1
+		for k, a := range s.addrOf {
+			if a.Equals(kp.GetAddress()) {
+				slot = k
+			}
+		}
+		if slot < 0 {
+			for _, x := range s.model {
+				if x.damaged {
+					return "damaged-record" // a flipped stored byte may sit in the public key
+				}
+			}
+			s.violate("unknown-key-returned", "coinbase", fmt.Sprintf("GetCoinbase returned %s, which was never put into the keybase", kp.GetAddress()))
+			return "unknown"
+		}
+		ce := s.entryAt(slot)
+		if !ce.present && !ce.damaged {
+			s.violate("deleted-key-returned", "coinbase", fmt.Sprintf("GetCoinbase returned the key of slot %d (%s), which was deleted", slot, kp.GetAddress()))
+			return "deleted"
+		}
+		if cur, gerr := kb.Get(kp.GetAddress()); gerr == nil && cur.PrivKeyArmor != kp.PrivKeyArmor && !ce.damaged {
+			s.violate("replaced-record-returned", "coinbase", fmt.Sprintf("GetCoinbase returned for slot %d a record that is not the stored one (the key was re-encrypted since)", slot))
+			return "stale"
+		}
+		s.res.Probe("coinbase_checked")
+		return "ok"
+	case "set_coinbase":
+		if err := kb.SetCoinbase(addr); err == nil && !e.present && !e.damaged {
+			s.violate("key-returned-for-absent-address", "set_coinbase", fmt.Sprintf("slot %d is not stored", st.Slot))
+		}
+		return "done"
 	case "create":
 		kp, err := kb.Create(passphrases[st.Pass2])
 		if err != nil {
@@ -459,6 +532,14 @@ func (s *sim) exec(st *Step) string {
 		if awrong {
 			s.res.Fault("wrong_passphrase")
 		}
+		if awrong && !a.damaged && hmacEquivalent(pass, passphrases[a.pass]) {
+			// (see the probe at the top of exec: decided by a read-only decryption)
+			s.res.Probe("hmac_equivalent_passphrase_supplied")
+			if _, err := mintkey.UnarmorDecryptPrivKey(a.text, pass); err == nil {
+				s.violate("key-returned-for-hmac-equivalent-passphrase", "armor", fmt.Sprintf("an armor encrypted with %q decrypts with %q", passphrases[a.pass], pass))
+			}
+			return "probed-equivalent"
+		}
 		if st.Op == "decrypt_armor" {
 			priv, err := mintkey.UnarmorDecryptPrivKey(a.text, pass)
 			if err == nil {
@@ -513,6 +594,10 @@ func (s *sim) judgeArmorKey(op string, a *armorRec, src *entry, pass int, priv p
 	}
 	if src.priv != nil && !bytes.Equal(priv.RawBytes(), src.priv) {
 		s.violate("wrong-key-returned", op, fmt.Sprintf("armor of slot %d decrypted to other private key bytes", a.slot))
+		return
+	}
+	if pass != a.pass && hmacEquivalent(passphrases[pass], passphrases[a.pass]) {
+		s.violate("key-returned-for-hmac-equivalent-passphrase", "armor", fmt.Sprintf("an armor encrypted with %q decrypts with %q", passphrases[a.pass], passphrases[pass]))
 		return
 	}
 	if pass != a.pass {
